@@ -28,7 +28,39 @@ def what(f):
         vlib.json.dumps(ev["vd"], sort_keys=True), vlib.json.dumps(ev["diff"], sort_keys=True))
 
 
+PROVS = ("p1", "p2")
+VALS = ("va", "vb")
+
+
+def _refine(f):
+    """Narrow the signature of a mirror violation that appears at a slash: is every unbalanced delegator a vault
+    whose re-balancing unbond was written on the delegation but refused on the stake entries (entry stakes no
+    longer sum to the vault's delegation = 'self delegation below minimum' returned by AfterDelegationModified and
+    ignored by BalanceValidatorsDelegators)?"""
+    ev = f["event"]
+    if not f["sig"].startswith("Mirror@slash"):
+        return f
+    bad = []
+    for w in ev["vd"]:
+        prov = sum(ev["dg"][q][w] for q in ev["dg"])
+        val = sum(ev["vd"][w].values())
+        if abs(prov - val) > len(VALS):
+            bad.append(w)
+    def refused(w):
+        if not w.startswith("v"):
+            return False
+        p = "p" + w[1:]
+        if p not in ev["m"] or not ev["m"][p]["on"]:
+            return False
+        stakes = sum(x["stake"] for x in ev["e"][p].values() if x["on"])
+        return stakes > ev["dg"][p][w]
+    if bad and all(refused(w) for w in bad):
+        f = dict(f, sig="Mirror@slash:vault-unbond-refused-below-min-self-delegation")
+    return f
+
+
 def _confirm(ctx, findings):
+    findings = [_refine(f) for f in findings]
     by_sig = {}
     for f in findings:
         cur = by_sig.get(f["sig"])
@@ -36,7 +68,7 @@ def _confirm(ctx, findings):
             by_sig[f["sig"]] = f
     for i, (sig, f) in enumerate(sorted(by_sig.items())):
         again, _ = C07.drive_and_validate(ctx, [f["beh"]], "repro%d" % i, CLAUSES)
-        same = [g for g in again if g["sig"] == sig]
+        same = [g for g in map(_refine, again) if g["sig"] == sig]
         if not same:
             raise vlib.Infra("counter-example not reproduced: %s" % sig)
         ctx.violation(sig, what(same[0]), {"behaviours": [f["beh"]]})
@@ -52,7 +84,7 @@ def run(ctx):
     val_ops = ("valdelegate", "valundelegate", "valredelegate", "cancelunbond", "slash")
     ctx.cov["distinct_nontrivial"] = len({vlib.json.dumps(b) for b in behs
                                           if sum(1 for s in b if s["op"] in val_ops) >= 2 and any(s["op"].startswith("ds") or s["op"] == "stake" for s in b)})
-    ctx.cov["rule"] = ("behaviour = 14 operations drawn by TLC -simulate from Dualstaking.tla GenNext; non-trivial = at least two "
+    ctx.cov["rule"] = ("behaviour = 16 operations drawn by TLC -simulate from Dualstaking.tla GenNext; non-trivial = at least two "
                        "validator-side operations (delegate/undelegate/redelegate/cancel-unbond/slash) and one provider-side tx; "
                        "distinct by full operation list")
     ctx.sample(behs[0])
@@ -69,7 +101,7 @@ def run(ctx):
     ctx.cov["redelegations_with_flag_set"] = sum(1 for r in rows if r["ev"] == "valredelegate" and r["ok"] and r["flag"])
     need = ctx.pick(15, 150)
     for op in val_ops + ("dsdelegate", "dsredelegate", "stake"):
-        if st["ok_ops"].get(op, 0) < (need if op != "cancelunbond" else 1):
+        if st["ok_ops"].get(op, 0) < (need if op != "cancelunbond" else max(2, need // 5)):
             raise vlib.Infra("vacuous: only %d accepted %s operations" % (st["ok_ops"].get(op, 0), op))
     bad_flag = [r for r in rows if r["ev"] == "valredelegate" and r["ok"] and not r["flag"]]
     if bad_flag:
@@ -82,7 +114,7 @@ def replay(ctx, path):
         obj = vlib.json.load(f)
     findings, _ = C07.drive_and_validate(ctx, obj["behaviours"], "replay", CLAUSES)
     done = set()
-    for f in findings:
+    for f in map(_refine, findings):
         if f["sig"] not in done:
             done.add(f["sig"])
             ctx.violation(f["sig"], what(f), {"behaviours": [f["beh"]]})
